@@ -332,3 +332,14 @@ Example C02_ex_source_scan :
   for_else (fun cnum thresh => fn_threshold_step cnum thresh (3 # 10)%Q 1 2) 99 (enumerate_from 0 lit_thresholds) = 1
   /\ for_else (fun cnum thresh => fn_threshold_step cnum thresh 1%Q 1 2) 99 (enumerate_from 0 lit_thresholds) = 99.
 Proof. split; reflexivity. Qed.
+
+(* ---- source tie of absolute_threshold's OUTER loop (Gen/FnCallScanRow.v fn_threshold_row, one iteration of
+   `for idx, row in enumerate(cnarr)`; the inner scan is an opaque range there, tied by C02_source_scan* above):
+   the value stored at absolutes[idx] IS scan_row -- the reference copies for a NaN log2, the scan otherwise *)
+From CNV Require Gen.FnCallScanRow Proofs.FnCallScanRow.
+Theorem C02_source_scan_row : forall fdiv idx chrom (v : option Q) e ts k hapx,
+  let r := ref_pure chrom k hapx in
+  Gen.FnCallScanRow.fn_threshold_row idx chrom v k hapx
+    (match v with Some q => scan_loop fdiv q e k r (enumerate_from 0 ts) | None => 0 end)
+  = scan_row fdiv v e ts k r.
+Proof. exact Proofs.FnCallScanRow.source_scan_row. Qed.
